@@ -135,7 +135,7 @@ CHECKS = {
  "C20": dict(
    text="Lean theorems over a fault-aware writer model of the repaired code (fault kinds: append of a small / large entry, fsync, create on rollover): the faulty operation reports an error, the invariant is kept, "
         "no other key changes, the failed key is unchanged in memory, and later fault-free operations still refine the map. Tied to the real store: one ENOSPC/EIO per run at (sampled) every physical "
-        "open/write/fsync/unlink position, all keys read after every op and after a final reopen. Merge passes (Props/C20Merge.lean): `mergeF` = the pass in which call j fails, in the order of the code of the day (hint entry before re-pointing; the order before the repair is kept with its decide-checked data-loss counterexample, which is how defect D13 was found): error reported, invariant kept, no key reads differently, later operations refine the map, ids stay fresh, the trace monitor accepts the calls; restart (also after any later fault-free history) reads as the map under the D3 side condition. The driver runs `mergeF` and the check compares it with the real store at every fault position inside a merge.",
+        "open/write/fsync/unlink position, all keys read after every op and after a final reopen. Merge passes (Props/C20Merge.lean): `mergeF` = the pass in which call j fails, in the order of the code of the day (hint entry before re-pointing; the order before the repair is kept with its decide-checked data-loss counterexample, which is how defect D13 was found): error reported, invariant kept, no key reads differently, later operations refine the map, ids stay fresh, the trace monitor accepts the calls; restart (also after any later fault-free history) reads as the map under the D3 side condition. The driver runs `mergeF` and the check compares it with the real store at every fault position inside a merge. Through the server (Props/C20Server.lean, model Resp/ServerFault.lean: the handler over a store whose calls can fail): an acknowledging reply is true of the running server and of what a restart recovers, a command is refused only when one of its calls failed, a refused command touches no key it does not name and leaves old or new; the real server with the n-th file-system call after a SET/GET/DEL failing is compared with the set of outcomes the model allows.",
    note=COMMON_NOTE + "KNOWN FINDING D12 (faults inside a merge pass). What std's BufWriter retains after a failed write is modelled from observation.",
    technique="Lean 4 proof (fault-aware model keeps the refinement invariant) + exhaustive single-fault injection by LD_PRELOAD",
    ref="DESIGN.md §5 C20"),
